@@ -3912,7 +3912,9 @@ type enterFuncBody struct {
 }
 
 func (e *enterFuncBody) exec(vm *vm) {
-	if e.stashSize > 0 || e.extensible {
+	// e.names != nil: the scope has dynamic lookups (see updateEnterBlock), so the compiler counts it as
+	// a stash level for every access from inside even when it has no bindings of its own
+	if e.stashSize > 0 || e.extensible || e.names != nil {
 		vm.newStash()
 		stash := vm.stash
 		stash.funcType = e.funcType
